@@ -43,6 +43,10 @@ CHECKS = {
             "§6 C07",
             "executable Lean models + proved HDS overlay theorem + differential correspondence on chains of depth ≤ 4 (8 thorough)",
             "PARTIAL: the per-format overlay theorems for VHDX partial blocks, VMDK deltas and QCOW2 backing are not proved yet (the models are executable and tied by correspondence); parent *resolution* over a real filesystem is exercised on the implementation side only — the model receives the resolved chain and checks that an absent required parent is an error."),
+    "C12": ("Lean 4 gate theorems in the form 'accepted ⇒ the validated field has an accepted value' (universally quantified over all inputs): VDI signature, HDS signatures, QCOW2 header gates as one pure function (magic, version, cluster_bits, zstd, sub-cluster size, crypt method, unknown incompatible bits) + data-file and backing-file gates decided inside open, VHDX file-identifier / region-table / metadata-table signatures and required regions, VMDK sparse magic (header and footer); gate constants re-extracted each run; exhaustive enumeration of single-bit flips of every magic and of the unsupported values on valid generated inputs, real code vs model vs expectation",
+            "§6 C12",
+            "universally quantified gate theorems + exhaustive gate enumeration (fault enumeration over the finite flip sets) + correspondence",
+            "Gates of the Hyper-V, envelope/keystore and key-safe parsers are enumerated against the real code (implementation vs expectation); their Lean models belong to C15-C17. Only raised-vs-returned is compared. VMDK(fh) deliberately treats a file without sparse magic as a flat extent (not a gate)."),
 }
 
 NOT_YET = {
